@@ -122,6 +122,7 @@ def PassPc.visited : PassPc → Nat → Prop
 def cleanSet : CPc → Nat → Prop
   | .pass p => p.visited
   | .purgePc => fun _ => True
+  | .flushPc => fun _ => True
   | .reporterClose => fun _ => True
   | .returned _ => fun _ => True
   | _ => fun _ => False
@@ -143,6 +144,16 @@ def endsRight (closable : Bool) : List LogEv → Bool
   | .reporterClose :: .flush :: _ => closable
   | .flush :: _ => !closable
   | _ => false
+
+theorem cleanSet_afterPass (oq : Option PassPc) : cleanSet (afterPass oq) = optVisited oq := by
+  cases oq with
+  | none => rfl
+  | some q => cases q <;> rfl
+
+theorem pend_afterPass (oq : Option PassPc) : (afterPass oq).pend = optPend oq := by
+  cases oq with
+  | none => rfl
+  | some q => cases q <;> rfl
 
 theorem cleanSet_pos {p : CPc} {j : Nat} (h : cleanSet p j) : 3 ≤ ph p := by
   cases p <;> simp [cleanSet, ph] at h ⊢
@@ -195,9 +206,9 @@ end
 /-! ## the invariant -/
 
 structure Tok (s : State) : Prop where
-  rc : countRC s.log = if ph (wpc s) = 6 ∧ s.closable = true then 1 else 0
-  tail45 : ph (wpc s) = 4 ∨ ph (wpc s) = 5 → lastFlushed s.log = true
-  tail6 : ph (wpc s) = 6 → endsRight s.closable s.log = true
+  rc : countRC s.log = if ph (wpc s) = 7 ∧ s.closable = true then 1 else 0
+  tail6 : ph (wpc s) = 6 → lastFlushed s.log = true
+  tail7 : ph (wpc s) = 7 → endsRight s.closable s.log = true
   dropNoPre : NoPre s.dropped
   clean : CleanOn s.cells (cleanSet (wpc s))
   cons : ∀ tok, List.count tok (delivered s.log) + List.count tok s.loop.pend + List.count tok (wpc s).pend
@@ -247,8 +258,8 @@ theorem Tok.frame {s s' : State} (h : Tok s) (hw : wpc s' = wpc s) (hlog : s'.lo
     (hi : s'.issued = s.issued) (hn : s'.nextId = s.nextId) (hp : s'.loop.pend = s.loop.pend) : Tok s' := by
   refine ⟨?_, ?_, ?_, ?_, ?_, ?_, ?_, ?_⟩
   · rw [hw, hlog, hcl]; exact h.rc
-  · rw [hw, hlog]; exact h.tail45
-  · rw [hw, hlog, hcl]; exact h.tail6
+  · rw [hw, hlog]; exact h.tail6
+  · rw [hw, hlog, hcl]; exact h.tail7
   · rw [hd]; exact h.dropNoPre
   · rw [hw, hc]; exact h.clean
   · rw [hw, hlog, hc, hd, hi, hp]; exact h.cons
@@ -285,10 +296,10 @@ theorem Tok.loop_pass {s : State} (h : Ctl s) (h2 : Tok s) {ch : Nat} {p : PassP
   · rw [hw]
     show countRC s1.log = _
     rw [passStep_countRC hp, h2.rc]
-    have : ¬ (ph (wpc s) = 6) := by omega
+    have : ¬ (ph (wpc s) = 7) := by omega
     simp [this]
-  · rw [hw]; intro h45; omega
   · rw [hw]; intro h6; omega
+  · rw [hw]; intro h7; omega
   · show NoPre s1.dropped
     rw [hsame.dropped]; exact h2.dropNoPre
   · rw [hw]
@@ -313,15 +324,15 @@ theorem Tok.loop_pass {s : State} (h : Ctl s) (h2 : Tok s) {ch : Nat} {p : PassP
 /-- the winner moves between pcs before its final pass -/
 theorem Tok.wmove {s s' : State} (h : Tok s) (hlog : s'.log = s.log) (hc : s'.cells = s.cells) (hd : s'.dropped = s.dropped)
     (hi : s'.issued = s.issued) (hn : s'.nextId = s.nextId) (hp : s'.loop.pend = s.loop.pend)
-    (hpend : (wpc s').pend = (wpc s).pend) (hph : ph (wpc s') < 4) (hph0 : ph (wpc s) < 6)
+    (hpend : (wpc s').pend = (wpc s).pend) (hph : ph (wpc s') < 4) (hph0 : ph (wpc s) < 7)
     (hb : ∀ j, ¬ cleanSet (wpc s') j) : Tok s' := by
   refine ⟨?_, ?_, ?_, ?_, ?_, ?_, ?_, ?_⟩
   · rw [hlog, h.rc]
-    have a : ¬ (ph (wpc s) = 6) := by omega
-    have b : ¬ (ph (wpc s') = 6) := by omega
+    have a : ¬ (ph (wpc s) = 7) := by omega
+    have b : ¬ (ph (wpc s') = 7) := by omega
     simp [a, b]
-  · intro h45; omega
   · intro h6; omega
+  · intro h7; omega
   · rw [hd]; exact h.dropNoPre
   · exact CleanOn.empty _ hb
   · rw [hpend, hlog, hc, hd, hi, hp]; exact h.cons
@@ -331,10 +342,12 @@ theorem Tok.wmove {s s' : State} (h : Tok s) (hlog : s'.log = s.log) (hc : s'.ce
 /-- a step of the winner's final pass -/
 theorem Tok.final_pass {s : State} (h : Ctl s) (h2 : Tok s) (t : Nat) {ch : Nat} {p : PassPc} {s1 : State}
     {oq : Option PassPc} (hw : s.winner = some t)
-    (hpc : s.closers t = .pass p) (hp : passStep s ch p = some (s1, oq)) (p' : CPc) (hpend : p'.pend = optPend oq)
-    (hph : ph p' = 3 ∨ (ph p' = 4 ∧ oq = none))
-    (hb : cleanSet p' = optVisited oq) :
-    Tok (setC s1 t p') := by
+    (hpc : s.closers t = .pass p) (hp : passStep s ch p = some (s1, oq)) :
+    Tok (setC s1 t (afterPass oq)) := by
+  generalize hp' : afterPass oq = p'
+  have hpend : p'.pend = optPend oq := by rw [← hp']; exact pend_afterPass oq
+  have hph : ph p' = 3 ∨ ph p' = 4 := by rw [← hp']; exact ph_afterPass oq
+  have hb : cleanSet p' = optVisited oq := by rw [← hp']; exact cleanSet_afterPass oq
   have hsame := passStep_same hp
   have hw0 : wpc s = .pass p := by rw [wpc_of_winner hw, hpc]
   have hw1 : wpc (setC s1 t p') = p' := by simp [wpc, setC, hsame.winner, hw]
@@ -343,15 +356,11 @@ theorem Tok.final_pass {s : State} (h : Ctl s) (h2 : Tok s) (t : Nat) {ch : Nat}
   · rw [hw1]
     show countRC s1.log = _
     rw [passStep_countRC hp, h2.rc, hw0]
-    have a : ¬ (ph (CPc.pass p) = 6) := by simp [ph]
-    have b : ¬ (ph p' = 6) := by omega
+    have a : ¬ (ph (CPc.pass p) = 7) := by simp [ph]
+    have b : ¬ (ph p' = 7) := by omega
     rw [if_neg (fun hh => a hh.1), if_neg (fun hh => b hh.1)]
-  · rw [hw1]; intro h45
-    rcases hph with h3 | ⟨_, hn⟩
-    · omega
-    · show lastFlushed s1.log = true
-      exact passStep_flushed hp hn
   · rw [hw1]; intro h6; omega
+  · rw [hw1]; intro h7; omega
   · show NoPre s1.dropped
     rw [hsame.dropped]; exact h2.dropNoPre
   · rw [hw1]
@@ -388,7 +397,7 @@ theorem tok_step (s s' : State) (e : Ev) (h : Ctl s) (h2 : Tok s) (hs : step s e
         have hcl : s.closed = true := by
           apply h.closed_of_ph
           have := h.purged_iff; rw [hpg] at this; simp at this; omega
-        refine ⟨h2.rc, h2.tail45, h2.tail6, ?_, h2.clean, ?_, fresh_cons _ rfl h2.fresh,
+        refine ⟨h2.rc, h2.tail6, h2.tail7, ?_, h2.clean, ?_, fresh_cons _ rfl h2.fresh,
           nodup_cons_fresh _ rfl h2.fresh h2.nodup⟩
         · intro t ht
           simp only [List.mem_cons] at ht
@@ -402,7 +411,7 @@ theorem tok_step (s s' : State) (e : Ev) (h : Ctl s) (h2 : Tok s) (hs : step s e
           simp only [List.count_cons] at this ⊢
           omega
       · next hpg =>
-        refine ⟨h2.rc, h2.tail45, h2.tail6, h2.dropNoPre, ?_, ?_, fresh_cons _ rfl h2.fresh,
+        refine ⟨h2.rc, h2.tail6, h2.tail7, h2.dropNoPre, ?_, ?_, fresh_cons _ rfl h2.fresh,
           nodup_cons_fresh _ rfl h2.fresh h2.nodup⟩
         · refine h2.clean.set_cons c _ x hx ?_
           intro hpos
@@ -494,25 +503,23 @@ theorem tok_step (s s' : State) (e : Ev) (h : Ctl s) (h2 : Tok s) (hs : step s e
     · next p hpc =>
       have hw := h.winner_of t (by rw [hpc]; simp [ph])
       split at hs
-      · next s1 q hp =>
+      · next s1 oq hp =>
         simp only [Option.some.injEq] at hs; subst hs
-        exact Tok.final_pass h h2 t hw hpc hp (.pass q) rfl (Or.inl rfl) rfl
-      · next s1 hp =>
-        simp only [Option.some.injEq] at hs; subst hs
-        exact Tok.final_pass h h2 t hw hpc hp .purgePc rfl (Or.inr ⟨rfl, rfl⟩) rfl
+        exact Tok.final_pass h h2 t hw hpc hp
       · cases hs
     · next hpc =>
       have hw := h.winner_of t (by rw [hpc]; simp [ph])
       simp only [Option.some.injEq] at hs; subst hs
       have hw0 : wpc s = .purgePc := by rw [wpc_of_winner hw, hpc]
-      have hw1 : wpc (setC (purgeAll s) t .reporterClose) = .reporterClose := by simp [wpc, setC, purgeAll, hw]
+      have hw1 : wpc (setC (purgeAll s) t .flushPc) = .flushPc := by simp [wpc, setC, purgeAll, hw]
       have hex : s.loop = .exited := h.loopEx (by rw [hw0]; simp [ph])
       have hclean := h2.clean; rw [hw0] at hclean
       refine ⟨?_, ?_, ?_, ?_, ?_, ?_, h2.fresh, h2.nodup⟩
       · rw [hw1]; have := h2.rc; rw [hw0] at this; simp [ph] at this ⊢; exact this
-      · intro _; exact h2.tail45 (by rw [hw0]; simp [ph])
       · rw [hw1]; intro h6; simp [ph] at h6
-      · show NoPre (s.cells.flatten ++ s.dropped)
+      · rw [hw1]; intro h7; simp [ph] at h7
+      · -- the purge comes before the final flush, but after the final pass: every cell was swapped, nothing `pre` is left
+        show NoPre (s.cells.flatten ++ s.dropped)
         intro tok ht
         rcases List.mem_append.mp ht with ht | ht
         · exact hclean.flatten tok ht
@@ -520,7 +527,7 @@ theorem tok_step (s s' : State) (e : Ev) (h : Ctl s) (h2 : Tok s) (hs : step s e
       · exact CleanOn.map_nil _ _
       · intro tok
         rw [hw1]
-        show List.count tok (delivered s.log) + List.count tok s.loop.pend + List.count tok CPc.reporterClose.pend
+        show List.count tok (delivered s.log) + List.count tok s.loop.pend + List.count tok CPc.flushPc.pend
           + List.count tok (s.cells.map fun _ => []).flatten + List.count tok (s.cells.flatten ++ s.dropped)
           = List.count tok s.issued
         have h1 := h2.cons tok
@@ -529,9 +536,25 @@ theorem tok_step (s s' : State) (e : Ev) (h : Ctl s) (h2 : Tok s) (hs : step s e
         simp only [CPc.pend, List.count_nil] at h1 ⊢
         omega
     · next hpc =>
+      -- the final flush (after the purge)
+      have hw := h.winner_of t (by rw [hpc]; simp [ph])
+      simp only [Option.some.injEq] at hs; subst hs
+      have hw0 : wpc s = .flushPc := by rw [wpc_of_winner hw, hpc]
+      have hw1 : wpc { setC s t .reporterClose with log := .flush :: s.log } = .reporterClose := by simp [wpc, setC, hw]
+      have hclean := h2.clean; rw [hw0] at hclean
+      have hcons := h2.cons; rw [hw0] at hcons
+      refine ⟨?_, ?_, ?_, h2.dropNoPre, ?_, ?_, h2.fresh, h2.nodup⟩
+      · rw [hw1]; have := h2.rc; rw [hw0] at this; simp [ph] at this ⊢
+        show countRC (.flush :: s.log) = 0
+        exact this
+      · intro _; rfl
+      · rw [hw1]; intro h7; simp [ph] at h7
+      · rw [hw1]; exact hclean
+      · rw [hw1]; exact hcons
+    · next hpc =>
       have hw := h.winner_of t (by rw [hpc]; simp [ph])
       have hw0 : wpc s = .reporterClose := by rw [wpc_of_winner hw, hpc]
-      have hfl := h2.tail45 (by rw [hw0]; simp [ph])
+      have hfl := h2.tail6 (by rw [hw0]; simp [ph])
       have hrc := h2.rc; rw [hw0] at hrc; simp [ph] at hrc
       have hclean := h2.clean; rw [hw0] at hclean
       have hcons := h2.cons; rw [hw0] at hcons
@@ -542,9 +565,9 @@ theorem tok_step (s s' : State) (e : Ev) (h : Ctl s) (h2 : Tok s) (hs : step s e
           simp [wpc, setC, hw]
         refine ⟨?_, ?_, ?_, h2.dropNoPre, ?_, ?_, h2.fresh, h2.nodup⟩
         · rw [hw1]
-          show countRC (.reporterClose :: s.log) = if ph (.returned s.err) = 6 ∧ s.closable = true then 1 else 0
+          show countRC (.reporterClose :: s.log) = if ph (.returned s.err) = 7 ∧ s.closable = true then 1 else 0
           simp [countRC, hrc, ph, hcl]
-        · rw [hw1]; intro h45; simp [ph] at h45
+        · rw [hw1]; intro h6; simp [ph] at h6
         · intro _
           show endsRight s.closable (.reporterClose :: s.log) = true
           cases hlog : s.log with
@@ -558,9 +581,9 @@ theorem tok_step (s s' : State) (e : Ev) (h : Ctl s) (h2 : Tok s) (hs : step s e
           simp [wpc, setC, hw]
         refine ⟨?_, ?_, ?_, h2.dropNoPre, ?_, ?_, h2.fresh, h2.nodup⟩
         · rw [hw1]
-          show countRC s.log = if ph (.returned none) = 6 ∧ s.closable = true then 1 else 0
+          show countRC s.log = if ph (.returned none) = 7 ∧ s.closable = true then 1 else 0
           simp [hrc, hcl]
-        · rw [hw1]; intro h45; simp [ph] at h45
+        · rw [hw1]; intro h6; simp [ph] at h6
         · intro _
           show endsRight s.closable s.log = true
           cases hlog : s.log with
